@@ -127,6 +127,81 @@ def h_exact(H):
     S.explore(body)
 
 
+# ----------------------------------------------------------------------------- init_params: the parameters the window harnesses start from
+def replay_init_params(vals, oid):
+    """the real init_params on a real recording of the counter-model's length (a small one when the model's is impractical)"""
+    import scipy.signal
+    ns = vals.get("ns")
+    cases = [(ns if isinstance(ns, int) and 1 <= ns <= 40000 else 7001, vals.get("nsamples_arg"), vals.get("nwindow_arg")), (7001, None, None), (3000, 2999, 1200)]
+    bad = []
+    for n, na, wa in cases:
+        d = tempfile.mkdtemp(prefix="c03_")
+        try:
+            ap, _ = _mk_np24(d, 0.5, 8192, ns=n, rng=np.random.default_rng(1))
+            conv = neuropixel.NP2Converter(ap, post_check=False, compress=False)
+            kw = {k_: v for k_, v in (("nsamples", na), ("nwindow", wa)) if isinstance(v, int) and v >= 1}
+            try:
+                conv.init_params(**kw)
+            except AssertionError:
+                conv.sr.close()
+                continue
+            want = dict(nsamples=kw.get("nsamples", n), samples_window=kw.get("nwindow", 60000), ratio=N.RATIO, samples_overlap=N.OVERLAP, samples_taper=N.TAPER, napch=384, idxsyncch=384)
+            got = {k_: getattr(conv, k_, None) for k_ in want}
+            if got != want or not np.array_equal(conv.taper, np.r_[0, scipy.signal.windows.cosine((N.TAPER - 1) * 2), 0]) or want["samples_window"] % N.RATIO:
+                bad.append({"recording_samples": n, "arguments": kw, "expected": want, "got": {k_: (int(v) if isinstance(v, (int, np.integer)) else repr(v)) for k_, v in got.items()}})
+            conv.sr.close()
+        finally:
+            shutil.rmtree(d, ignore_errors=True)
+    return {"failed": bool(bad), "cases": bad[:3]}
+
+
+@harness(PROPERTY, "init_params", functions=["neuropixel:NP2Converter.init_params"], replay=replay_init_params,
+         clause="every sample: by default the whole recording is processed, with the window / overlap / taper / decimation parameters the window harnesses are proved for")
+def h_init_params(H):
+    import scipy.signal
+    for how in ("default", "given"):
+        S = H.session(f"init_params.{how}")
+        S.assert_mode = "branch"       # the asserts of init_params are argument checks: a refused call is one of its outcomes
+
+        def body(it, how=how):
+            ns, napch = z3.Ints("ns napch")
+            it.ctx.assume(z3.And(ns >= 1, napch >= 1))
+            meta = {"typeThis": "imec", "snsApLfSy": [SV(z3.ToReal(napch)), 0.0, 1.0], "nSavedChans": SV(z3.ToReal(napch + 1)), "imSampRate": 30000.0}
+            sr = SObj(spikeglx.Reader, meta=meta, ns=SV(ns))
+            conv = SObj(neuropixel.NP2Converter, sr=sr, np_version="NP2.4")
+            kw = {}
+            if how == "given":
+                n_arg, w_arg = z3.Ints("nsamples_arg nwindow_arg")
+                it.ctx.assume(z3.And(n_arg >= 1, w_arg >= 1))
+                kw = {"nsamples": SV(n_arg), "nwindow": SV(w_arg)}
+                H.input(nsamples_arg=n_arg, nwindow_arg=w_arg)
+            H.input(ns=ns, napch=napch)
+            try:
+                run_function(it, neuropixel.NP2Converter.init_params, [conv], kw)
+            except I.PyRaise as e:
+                if isinstance(e.exc, AssertionError):
+                    return          # the call was refused (window not a multiple of the ratio): nothing is processed with these parameters
+                raise
+            at = conv.attrs
+            g = lambda k_: term(at[k_]) if isinstance(at.get(k_), SV) else at.get(k_)       # noqa
+            eq = lambda k_, v: (g(k_) == v) if isinstance(g(k_), z3.ExprRef) or isinstance(v, z3.ExprRef) else z3.BoolVal(isinstance(g(k_), (int, float, np.integer, np.floating)) and g(k_) == v)      # noqa
+            it.ctx.oblige(f"init_params.{how}.samples_to_process", eq("nsamples", n_arg if how == "given" else ns), "post",
+                          "the number of samples to process is the caller's, by default all the samples of the recording (nothing rounded away)", assume=False)
+            it.ctx.oblige(f"init_params.{how}.window", eq("samples_window", w_arg if how == "given" else z3.IntVal(60000)), "post", "window length: the caller's (accepted only if a multiple of 12), 2 s by default", assume=False)
+            if how == "given":
+                it.ctx.oblige("init_params.given.window_multiple_of_ratio", w_arg % N.RATIO == 0, "post", "a window that is not a multiple of the decimation ratio is refused (assert)", assume=False)
+            it.ctx.oblige(f"init_params.{how}.constants", z3.And(eq("ratio", N.RATIO), eq("samples_overlap", N.OVERLAP), eq("samples_taper", N.TAPER), eq("fs_ap", 30000), eq("fs_lf", 2500)), "post",
+                          "decimation ratio 12, overlap 576, taper 144: the values the window harnesses assume", assume=False)
+            it.ctx.oblige(f"init_params.{how}.channel_counts", z3.And(eq("napch", napch), eq("idxsyncch", napch)), "post", "AP channel count and first sync column from snsApLfSy", assume=False)
+            tp, sos = at.get("taper"), at.get("sos_lp")
+            want_tp = np.r_[0, scipy.signal.windows.cosine((N.TAPER - 1) * 2), 0]
+            want_sos = scipy.signal.butter(N=2, Wn=1000 / 2500 / 2, btype="lowpass", output="sos")
+            it.ctx.oblige(f"init_params.{how}.taper_and_filter", z3.BoolVal(isinstance(tp, np.ndarray) and tp.shape == want_tp.shape and np.array_equal(tp, want_tp)
+                                                                            and isinstance(sos, np.ndarray) and np.array_equal(sos, want_sos)), "post",
+                          "cosine taper of 2 x 144 samples with zero ends and the order-2 1 kHz low-pass used by the window harnesses", assume=False)
+        S.explore(body)
+
+
 # ----------------------------------------------------------------------------- reconstruction
 @harness(PROPERTY, "reconstruct_window", functions=["neuropixel:NP2Reconstructor._reconstruct"],
          clause="reassembling the per-shank files reproduces the original binary (column scatter is the inverse of the split)")
